@@ -64,7 +64,7 @@ pub fn meta(prop: &str) -> Option<Meta> {
         },
         "C04" => Meta {
             level: "exploration",
-            rule: "generator profile readd-heavy; oracle = (i) add on a model-absent id yields a present vertex with no kids, no data marker, no data on later reads, others unchanged; (ii) add on a present id leaves the complete observation unchanged and deleting all such adds from the history leaves the whole observation trace (to the end of the epilogue) unchanged; (iii) add never panics. Non-trivial: the history re-adds a grouped vertex or a recycled id with stale content, and a group died.",
+            rule: "generator profile readd-heavy; oracle = (i) add on a model-absent id yields a present vertex with no kids (kid() is asked for every label the collected vertex had — the model keeps a graveyard — before and after the add, and for probe labels), no data marker, no data on later reads, others unchanged; (ii) add on a present id leaves the complete observation unchanged and deleting all such adds from the history leaves the whole observation trace (to the end of the epilogue) unchanged; (iii) add never panics. Non-trivial: the history re-adds a grouped vertex or a recycled id with stale content, and a group died.",
             assumptions: gc_assume,
             subs: vec![Sub { id: "gcmodel", quick: 48_000, thorough: 3_200_000 }, Sub { id: "gcmodel-fast", quick: 0, thorough: 800_000 }],
         },
@@ -100,13 +100,13 @@ pub fn meta(prop: &str) -> Option<Meta> {
         },
         "C10" => Meta {
             level: "exploration",
-            rule: "as C08 with g' = g.clone(); the continuation always may contain next_id/merge/script variables (the allocator position must be copied). Half of the cases check independence instead: the continuation and the epilogue are applied to one copy only (either direction); the other copy's complete observation must be unchanged and it must then drain exactly as the reference model at the split point says (data bytes, collections). Non-trivial: live group with unread datum and heap datum at clone time, a group dies afterwards, and (same-continuation mode) the continuation calls the allocator.",
+            rule: "as C08 with g' = g.clone(), or (half of the cases) g' made by clone_from(): into a bigger store that has vertices of its own, also above g's capacity, or into an older smaller-history store; the continuation always may contain next_id/merge/script variables (the allocator position must be copied). Half of the cases check independence instead: the continuation and the epilogue are applied to one copy only (either direction); the other copy's complete observation must be unchanged and it must then drain exactly as the reference model at the split point says (data bytes, collections). Non-trivial: live group with unread datum and heap datum at clone time, a group dies afterwards, and (same-continuation mode) the continuation calls the allocator.",
             assumptions: &["differential: original vs clone", "the generator is guided by the reference model"],
             subs: vec![Sub { id: "twin", quick: 32_000, thorough: 1_600_000 }],
         },
         "C11" => Meta {
             level: "exploration",
-            rule: "pairs of trees built through the API: g = tree of 1..8 vertices over generated ids (edges bound in a generated order so that the tree may span several groups; data placed before or after binding, lengths across 8, some already read), optionally after junk groups were created and completely collected (so that merge's next_id() lands on recycled slots); h = tree of 1..8 vertices with labels from a 4-label pool (paths overlap often), data on a generated subset; `left` any vertex of g; half of the cases merge the same h a second time. Oracle: Ok, no panic; h's complete observation unchanged; the result is explained as a graft (every h path exists from left, distinct h vertices on distinct g vertices, exactly the vertices of the lacking paths are created under ids that were absent); after the merge g equals the reference model that performed the equivalent add/bind/put calls (every vertex's kids, data marker) and keeps equalling it through the drain epilogue (data bytes of every read, every collection). Cases whose result would exceed N labels/limits are skipped and counted. Sub-campaign treegen-enum (bounded-exhaustive): EVERY pair of rooted trees with at most 3 (quick) / 4 (thorough) vertices over the labels {α0, foo}, every data placement on both sides (short and 9-byte data), every choice of `left`, same oracle and epilogue. Non-trivial: |h|>=3, >=1 shared path, >=1 new vertex, >=1 datum in h, >=1 group collected afterwards.",
+            rule: "pairs of trees built through the API: g = tree of 1..8 vertices over generated ids (edges bound in a generated order so that the tree may span several groups; data placed before or after binding, lengths across 8, some already read, sometimes byte-identical to the datum h carries for the same path, sometimes in a store with no spare slot), optionally after junk groups were created and completely collected (so that merge's next_id() lands on recycled slots); h = tree of 1..8 vertices with labels from a 4-label pool (paths overlap often), data on a generated subset; `left` any vertex of g; half of the cases merge the same h a second time. Oracle: Ok, no panic; h's complete observation unchanged; the result is explained as a graft (every h path exists from left, distinct h vertices on distinct g vertices, exactly the vertices of the lacking paths are created under ids that were absent); after the merge g equals the reference model that performed the equivalent add/bind/put calls (every vertex's kids, data marker) and keeps equalling it through the drain epilogue (data bytes of every read, every collection). Cases whose result would exceed N labels/limits are skipped and counted. Sub-campaign treegen-enum (bounded-exhaustive): EVERY pair of rooted trees with at most 3 (quick) / 4 (thorough) vertices over the labels {α0, foo}, every data placement on both sides (short and 9-byte data), every choice of `left`, same oracle and epilogue. Non-trivial: |h|>=3, >=1 shared path, >=1 new vertex, >=1 datum in h, >=1 group collected afterwards.",
             assumptions: &["reference model + path-wise graft (harness/src/interp.rs graft())", "trees up to 8 vertices, 4 labels, N in 1..=16"],
             subs: vec![Sub { id: "treegen", quick: 64_000, thorough: 3_200_000 }, Sub { id: "treegen-enum", quick: 1, thorough: 1 }],
         },
@@ -118,19 +118,19 @@ pub fn meta(prop: &str) -> Option<Meta> {
         },
         "C13" => Meta {
             level: "exploration",
-            rule: "graphs: (60%) a direct digraph builder over 1..14 generated ids with up to 40 generated edges (cycles, self-reaching loops through other vertices, shared targets, parallel labels to one target up to N), data placed before/after binding; (40%) graphs left behind by generated histories with collections. For EVERY present start vertex whose reachable part is present and has <=14 vertices: slice(v) and slice_some(v,p) with p a generated table over (from,to,label) accepting all / half / none. Oracle: independent BFS on the reference model: Ok, no panic; present vertices of the slice = reachable set under p, under their original ids; accepted edges between kept vertices ⊆ kids(slice) ⊆ edges of the source, no duplicates, no edge to a dropped vertex; the complete observation of the source is unchanged. Termination: a call that recurses without bound kills the worker (reported with the in-flight case); a case running >120 s is reported as non-termination. Distinct non-trivial = distinct (graph, start, predicate) whose reachable part has a cycle or shared target and, for slice_some, where p rejects an edge between kept vertices.",
+            rule: "graphs: (60%) a direct digraph builder over 1..14 generated ids with up to 40 generated edges (cycles, self-reaching loops through other vertices, shared targets, parallel labels to one target up to N), data placed before/after binding; one builder graph in 16 is a fan (N from {1,2,3,8,15,16,17,32}: a hub with N or N-1 labels onto 2..5 kids plus generated edges); (40%) graphs left behind by generated histories with collections. For EVERY present start vertex whose reachable part is present and has <=14 vertices: slice(v) and slice_some(v,p) with p a generated table over (from,to,label) accepting all / half / none. Oracle: independent BFS on the reference model: Ok, no panic; present vertices of the slice = reachable set under p, under their original ids; accepted edges between kept vertices ⊆ kids(slice) ⊆ edges of the source, no duplicates, no edge to a dropped vertex; the complete observation of the source is unchanged. Termination: a call that recurses without bound kills the worker (reported with the in-flight case); a case running >120 s is reported as non-termination. Distinct non-trivial = distinct (graph, start, predicate) whose reachable part has a cycle or shared target and, for slice_some, where p rejects an edge between kept vertices.",
             assumptions: &["reference model edges; rejected edges between kept vertices are allowed in the slice (the statement does not forbid them)", "watchdog margin: normal cost is microseconds"],
             subs: vec![Sub { id: "digraph", quick: 40_000, thorough: 2_400_000 }],
         },
         "C14" => Meta {
             level: "exploration",
-            rule: "programs of <=25 ADD/BIND/PUT commands over literal ids and $variables are generated from model-guided histories and rendered with generated legal formatting (blanks/tabs/newlines around tokens, only blanks before '(', optional ν prefixes, newline-terminated # comments between commands incl. comments containing ';' and parentheses, optional final ';', empty commands, hex in upper/lower case separated by '-', blank or nothing). Well-formed text: graph A = deploy_to(text) and graph B = the direct calls (each variable bound to one next_id() at its first textual use) must have the returned count = number of commands, equal complete observations, and identical traces through the drain epilogue. Half of the cases carry one corruption (character delete/insert/replace, or a structured fault: unknown/lower-case opcode, missing parenthesis, missing argument, non-numeric or overflowing id, odd or non-hex data, label longer than 8, bad α index, missing ';'); an independent strict parser of the documented grammar classifies the corrupted text: well-formed => same equivalence oracle (if in-domain), malformed at command k => Err, no panic, and A equals the first k commands applied directly, unspecified => skipped and counted. Non-trivial: >=3 commands with a variable used twice, a comment and a ν prefix; or a text classified malformed.",
+            rule: "programs of <=25 ADD/BIND/PUT commands over literal ids and $variables (names of 1..14 characters, families with a common 8-character prefix) are generated from model-guided histories — half of them on a graph that already has a history of <=40 generated calls (collections, recycled ids, one in 4 from the dangling-edge-then-re-add template; one BIND in 4 repeats an existing edge) — and rendered with generated legal formatting (blanks/tabs/newlines around tokens, only blanks before '(', optional ν prefixes, newline-terminated # comments between commands incl. comments containing ';' and parentheses, optional final ';', empty commands, hex in upper/lower case separated by '-', blank or nothing). Well-formed text: graph A = deploy_to(text) and graph B = the direct calls (each variable bound to one next_id() at its first textual use) must have the returned count = number of commands, equal complete observations, and identical traces through the drain epilogue. Half of the cases carry one corruption (character delete/insert/replace, or a structured fault: unknown/lower-case opcode, missing parenthesis, missing argument, non-numeric or overflowing id, odd or non-hex data, label longer than 8, bad α index, missing ';'); an independent strict parser of the documented grammar classifies the corrupted text: well-formed => same equivalence oracle (if in-domain), malformed at command k => Err, no panic, and A equals the first k commands applied directly, unspecified => skipped and counted. Non-trivial: >=3 commands with a variable used twice, a comment and a ν prefix; or a text classified malformed.",
             assumptions: &["the strict parser in harness/src/props/script.rs is a faithful reading of the documented grammar; everything it is unsure about is classified unspecified and not judged", "differential: deploy_to vs direct calls"],
             subs: vec![Sub { id: "scriptgen", quick: 48_000, thorough: 2_400_000 }],
         },
         "C15" => Meta {
             level: "exploration",
-            rule: "per case: generated 12-byte content, 8-byte padding, 4 random + 10 special i64, 4 random + 12 special f64 bit patterns; for every length 0..=12 and every representation (canonical, heap Vector, inline array with non-zero padding) EVERY index i in {0..=14, usize::MAX-1, usize::MAX} for [i], byte_at, tail, [i..], [..i], [..=i], IndexMut and every pair (i,j) of those for [i..j], [i..=j] is compared with the same operation on the byte slice (equal result or both panic); plus bytes/len/to_vec/print/Display/Debug/[..]/eq across representations/from_str(print)/to_i64/to_f64/to_utf8/to_bool and the From conversions. In addition three long byte strings per case (lengths from {13..64, 200, 255, 256, 257, 1000, 65535, 65536, 65537} plus 0..6) in canonical and heap form are checked for the whole-value accessors and at sampled indices/ranges: 0, 1, 7, 8, 9, the middle, len-1, len, len+1, 255, 256, 257, 65535, 65536, usize::MAX and six generated positions, in both orders. The index space is enumerated completely per content. Distinct non-trivial = distinct (bytes, representation, padding) triples whose whole index space was checked.",
+            rule: "per case: generated 12-byte content, 8-byte padding, 4 random + 10 special i64, 4 random + 12 special f64 bit patterns; for every length 0..=12 and every representation (canonical, heap Vector, inline array with non-zero padding) EVERY index i in {0..=14, usize::MAX-1, usize::MAX} for [i], byte_at, tail, [i..], [..i], [..=i], IndexMut and every pair (i,j) of those for [i..j], [i..=j] is compared with the same operation on the byte slice (equal result or both panic); plus single-bit inequality (every bit of every length 1..=9 flipped, in every pair of representations: the two values must differ), inclusive ranges advanced with next() until exhausted compared with the same range value on the byte slice, plus bytes/len/to_vec/print/Display/Debug/[..]/eq across representations/from_str(print)/to_i64/to_f64/to_utf8/to_bool and the From conversions. In addition three long byte strings per case (lengths from {13..64, 200, 255, 256, 257, 1000, 65535, 65536, 65537} plus 0..6) in canonical and heap form are checked for the whole-value accessors and at sampled indices/ranges: 0, 1, 7, 8, 9, the middle, len-1, len, len+1, 255, 256, 257, 65535, 65536, usize::MAX and six generated positions, in both orders. The index space is enumerated completely per content. Distinct non-trivial = distinct (bytes, representation, padding) triples whose whole index space was checked.",
             assumptions: &["the oracle is Rust's own slice indexing on the same bytes", "lengths 0..=12, indices 0..=14 and the two largest usize values"],
             subs: vec![Sub { id: "hexenum", quick: 240, thorough: 9_600 }],
         },
@@ -142,13 +142,13 @@ pub fn meta(prop: &str) -> Option<Meta> {
         },
         "C17" => Meta {
             level: "exploration",
-            rule: "sub-campaign labels-enum: EVERY text of length 0..=4 (quick) / 0..=5 (thorough) over the 14-symbol alphabet {a Z 7 + - _ α ρ φ 𝜑 0 1 9 space} is classified by an independent reading of the documented grammar into in-domain (must parse, print back identically, be injective, and equal the directly constructed value), must-be-rejected (more than 8 characters without α prefix, malformed or overflowing index) or unspecified (empty, contains a space, +index, leading zeros, α-index text longer than 8: skipped and counted); sub-campaign labels: generated texts of length 5..=10 over the alphabet, arbitrary unicode texts, α+1..22 digits, homogeneous texts of every length 1..=9 per UTF-8 width (a, ρ, 中, 𝜑) and mixtures at the 8-character boundary, α followed by the indices around 2^32 and usize::MAX; every canonical value (Greek(c), Alpha(n), Str of 2..=8) met is printed, parsed back, compared, and looked up in a graph (bind under the constructed label, kid under the parsed one). Distinct non-trivial = distinct judged (not unspecified) texts.",
+            rule: "sub-campaign labels-enum: EVERY text of length 0..=4 (quick) / 0..=5 (thorough) over the 14-symbol alphabet {a Z 7 + - _ α ρ φ 𝜑 0 1 9 space} is classified by an independent reading of the documented grammar into in-domain (must parse, print back identically, be injective, and equal the directly constructed value), must-be-rejected (more than 8 characters without α prefix, malformed or overflowing index) or unspecified (empty, contains a space, +index, leading zeros, α-index text longer than 8: skipped and counted); sub-campaign labels: generated texts of length 5..=10 over the alphabet, arbitrary unicode texts, α+1..22 digits, homogeneous texts of every length 1..=9 per UTF-8 width (a, ρ, 中, 𝜑) and mixtures at the 8-character boundary, α followed by the indices around 2^32 and usize::MAX and 10^k-2..=10^k+2, 2^k-2..=2^k+2 for every k; every canonical value (Greek(c), Alpha(n), Str of 2..=8) met is printed, parsed back, compared, and looked up in a graph (bind under the constructed label, kid under the parsed one). Distinct non-trivial = distinct judged (not unspecified) texts.",
             assumptions: &["the text grammar as read from the property statement and src/label.rs documentation (DESIGN §6 C17 lists the unspecified classes)"],
             subs: vec![Sub { id: "labels-enum", quick: 1, thorough: 1 }, Sub { id: "labels", quick: 8_000, thorough: 320_000 }],
         },
         "C18" => Meta {
             level: "exploration",
-            rule: "graphs as C13 (digraph builder and histories with collections, never-added slots, dangling edges, data of all lengths incl. empty, labels that need no escaping, capacities 2..256). Oracle: to_xml() parsed with sxd-document and to_dot() parsed with a line grammar of the fixed format: node list = keys() in ascending order (none for absent ids); per node the edge set (label, target) = the model's edges; data = the model's bytes for exactly the vertices that have data. Metamorphic: for graphs without dangling edges a second graph with the same present vertices, edges and data is built differently (other capacity, reversed add/bind/label order, junk created and collected first, other read status) and must print byte-identical XML and DOT. Sub-campaign datum-length-sweep (bounded-exhaustive): EVERY datum length 0..=9000 (thorough: 0..=40000) and ±24 around 64 KiB, 128 KiB, 256 KiB, 1 MiB on a two-vertex graph, both exports parsed back. Non-trivial: an absent id below the largest present id, a vertex with >=2 edges, and a datum.",
+            rule: "graphs as C13 (digraph builder and histories with collections, never-added slots, dangling edges, data of all lengths incl. empty, labels that need no escaping, capacities 2..256). Oracle: to_xml() parsed with sxd-document and to_dot() parsed with a line grammar of the fixed format: node list = keys() in ascending order (none for absent ids); per node the edge set (label, target) = the model's edges; data = the model's bytes for exactly the vertices that have data. Metamorphic: for graphs without dangling edges a second graph with the same present vertices, edges and data is built differently (other capacity, reversed add/bind/label order, junk created and collected first, other read status) and must print byte-identical XML and DOT; one graph in 16 is wide (a vertex with 12..16 edges under labels from families equal modulo 128/256/case). Sub-campaign datum-length-sweep (bounded-exhaustive): EVERY datum length 0..=9000 (thorough: 0..=40000) and ±24 around 64 KiB, 128 KiB, 256 KiB, 1 MiB on a two-vertex graph, both exports parsed back. Non-trivial: an absent id below the largest present id, a vertex with >=2 edges, and a datum.",
             assumptions: &["reference model for vertices/edges/data", "DOT line grammar as documented in src/dot.rs"],
             subs: vec![Sub { id: "digraph", quick: 40_000, thorough: 2_400_000 }, Sub { id: "datum-length-sweep", quick: 8, thorough: 16 }],
         },
@@ -160,7 +160,7 @@ pub fn meta(prop: &str) -> Option<Meta> {
         },
         "C19" => Meta {
             level: "exploration",
-            rule: "two configurations (N from 1..=16, capacity from {2..24,64,256}) are drawn; a history (<=60 generated calls incl. next_id, merge of trees, slice, clone, save+load, + drain epilogue) is generated inside the limits of the smaller one; its complete observation trace after every call (results, keys, kids() in enumeration order, v_print, inspect text of every vertex, Debug text; next_id results, ids created by merge, keys/kids of slices) must be identical (a) on two runs in one process (every HashSet/HashMap gets fresh random keys), (b) for a sample of cases in another process, (c) under the other configuration. Non-trivial: the history contains a merge, slice or next_id, some vertex has >=2 labels, and the two configurations differ.",
+            rule: "two configurations (N from 1..=16, 17, 32; capacity from {2..24,64,256,700}) are drawn; a history (<=60 generated calls incl. next_id, merge of trees, slice, slice_some, clone, clone_from into another store, save+load, + slice_some from every eligible vertex under three predicates + drain epilogue) is generated inside the limits of the smaller one; its complete observation trace after every call (results, keys, kids() in enumeration order, v_print, inspect text of every vertex, Debug text; next_id results, ids created by merge, keys/kids of slices) must be identical (a) on two runs in one process (every HashSet/HashMap gets fresh random keys), (b) for a sample of cases in another process, (c) under the other configuration. Non-trivial: the history contains a merge, slice or next_id, some vertex has >=2 labels, and the two configurations differ.",
             assumptions: &["differential: the implementation is compared with itself", "image sizes returned by save() are masked (they depend on the capacity by nature)", "exports (to_xml/to_dot) are left to C18"],
             subs: vec![Sub { id: "multi-config", quick: 24_000, thorough: 1_200_000 }],
         },
